@@ -171,11 +171,19 @@ def _per_group_zero_bits(ctx):
                 present = [m for m in a.members if m.name in n.value]
 
                 def no_bits(m):
-                    if common.zero_width(ctx.spec, m.ty, n.r.mod):
-                        return True
-                    # a DEFAULT member given its default value is encoded as absent
-                    return m.has_default and n.value[m.name] == m.default
-                if present and all(no_bits(m) for m in present):
+                    return common.zero_width(ctx.spec, m.ty, n.r.mod)
+
+                def is_default(m):
+                    # (a DEFAULT member given its default value is not encoded: it does not count as present)
+                    from . import aeq
+                    cfg = aeq.EqCfg(numeric_enums=bool(ctx.case.get('numeric_enums')))
+                    try:
+                        return m.has_default and aeq.aeq(ctx.spec, m.ty, n.r.mod, aeq.default_value(
+                            ctx.spec, m, n.r.mod, cfg), n.value[m.name], cfg) is None
+                    except Exception:
+                        return False
+                encoded = [m for m in present if not is_default(m)]
+                if encoded and all(no_bits(m) for m in encoded):
                     return True
     return False
 
